@@ -21,7 +21,9 @@ EXTENDS SpectrumOps, Json
 CONSTANTS ShapeSet, AnyOrder,
           DestSet,           \* where the result goes: "stdout", or -o PATH naming a "fresh" path, a "stale" file (older and
                              \* LONGER content) or the input file itself ("inplace")
-          AB_KeepOldTail     \* sabotage (seeded change C13d): the destination is opened without truncation
+          AB_KeepOldTail,    \* sabotage (seeded change C13d): the destination is opened without truncation
+          PermuteNames,      \* the axis lists of -m / --marginalize-keep are LISTS as typed: explore every order of naming
+          AB_TrustNamedOrder \* sabotage (seeded change C13i): the removal assumes the list was typed in ascending order
 
 VARIABLES shape0, opts, sp, norm, applied,
           dest,              \* the destination of this invocation
@@ -38,6 +40,22 @@ ProjChoices(sh) ==
     \cup {[j \in 1..Len(sh) |-> IF sh[j] > 2 THEN 2 ELSE sh[j]]}
     \cup {sh}                         \* the identity projection, spelled for the axes that remain (their lengths, in their order)
 
+(* an axis list as typed: any order of the same set when PermuteNames, ascending otherwise *)
+RECURSIVE Perms(_)
+Perms(S) == IF S = {} THEN {<<>>} ELSE UNION {{<<a>> \o t : t \in Perms(S \ {a})} : a \in S}
+Namings(S) == IF PermuteNames THEN Perms(S) ELSE {SortedSeq(S)}
+
+(* removal one axis at a time in the order given: the axis typed as seq[i] (numbered on the ORIGINAL spectrum) is, when its *)
+(* turn comes, axis seq[i] minus the number of already removed axes before it.  The as-built shortcut numbers it as if   *)
+(* every earlier-typed axis were smaller (true exactly for ascending lists).                                              *)
+RECURSIVE RemoveInOrder(_, _, _)
+RemoveInOrder(x, seq, i) ==
+    IF i > Len(seq) THEN x
+    ELSE LET before == IF AB_TrustNamedOrder THEN i - 1 ELSE Cardinality({j \in 1..(i - 1) : seq[j] < seq[i]})
+             cur == seq[i] - before
+         IN  IF cur < 1 \/ cur > Len(x.shape) THEN x   \* (the sabotaged numbering can leave the spectrum)
+             ELSE RemoveInOrder(MarginalizeDecl(x, {cur}), seq, i + 1)
+
 Selected(o) == (IF o.marg # {} THEN {"marg"} ELSE {}) \cup (IF o.proj # <<>> THEN {"proj"} ELSE {})
                \cup (IF o.mask THEN {"mask"} ELSE {}) \cup (IF o.norm THEN {"norm"} ELSE {})
 
@@ -45,8 +63,11 @@ Init ==
     /\ shape0 \in ShapeSet
     /\ \E m \in MargChoices(shape0) :
         \E p \in ProjChoices(KeepShape(shape0, m)) :
-          \E k \in BOOLEAN, n \in BOOLEAN :
-            opts = [marg |-> m, proj |-> p, mask |-> k, norm |-> n]
+          \E k \in BOOLEAN, n \in BOOLEAN, spell \in {"remove", "keep"} :
+            \E nm \in Namings(IF spell = "remove" THEN m ELSE (1..Len(shape0)) \ m) :
+              /\ (m = {} => spell = "remove")
+              /\ (~PermuteNames => spell = "remove")
+              /\ opts = [marg |-> m, proj |-> p, mask |-> k, norm |-> n, spell |-> spell, named |-> nm]
     /\ sp = Identity(shape0)
     /\ norm = LFZero
     /\ applied = <<>>
@@ -61,7 +82,8 @@ MayApply(op) ==
 (* the projection target refers to the axes that remain after marginalization; when (in a wrong *)
 (* order) projection comes first it must be spelled for the full shape                          *)
 Marg == /\ MayApply("marg")
-        /\ sp' = MarginalizeDecl(sp, opts.marg)
+        /\ sp' = IF opts.spell = "remove" THEN RemoveInOrder(sp, opts.named, 1)     \* as typed, one axis at a time
+                 ELSE MarginalizeDecl(sp, opts.marg)                           \* keep: the complement, whatever the order typed
         /\ applied' = Append(applied, "marg")
         /\ UNCHANGED <<shape0, opts, norm, dest, file>>
 
@@ -128,7 +150,9 @@ NoOptionsIsIdentity == (Selected(opts) = {} /\ applied = <<>>) => sp = Identity(
 Emit ==
     Finished =>
         PrintT("REPLAY " \o ToJson([family |-> "view", shape |-> shape0,
-                                    marg |-> {a - 1 : a \in opts.marg}, proj |-> opts.proj, mask |-> opts.mask, norm |-> opts.norm,
+                                    marg |-> {a - 1 : a \in opts.marg},
+                                    spell |-> IF PermuteNames THEN opts.spell ELSE "any",
+                                    named |-> [i \in 1..Len(opts.named) |-> opts.named[i] - 1], proj |-> opts.proj, mask |-> opts.mask, norm |-> opts.norm,
                                     applied |-> applied, dest |-> dest,
                                     result |-> SpJson(sp), divisor |-> LFJson(norm)]))
 =============================================================================
